@@ -1,14 +1,19 @@
 """C09 -- see DESIGN.md section 4, C09."""
-from . import handlers, sqlunits
+from . import bloom, handlers, sqlunits
 
 LEVEL = "proof"
-EXPLANATION = "trace obligations of the real handlers (layer L2) selected by the prefix C09/"
-ASSUMPTIONS = []
-TRUSTED = []
+EXPLANATION = ("first sentence: the processed mark is written in the commit of the handler's effects (T1 on every handler path), the "
+               "mark / is-processed SQL and the duplicate check of _handle_message are under contract; second sentence: the Bloom "
+               "filter is proved function by function (bit get/set against the abstract bit view, hash positions, mark_seen, "
+               "maybe_seen, hydrate, reset) and the no-false-negative lemma follows from those contracts alone")
+ASSUMPTIONS = ["hashlib digests are deterministic functions of the bytes and int(hexdigest, 16) >= 0",
+               "<<, & and | on byte operands as checked exhaustively against CPython (2048 cases each)",
+               "threading.Lock is effect-free (single-threaded units)"]
+TRUSTED = ["native comparison harness replay/bounded/c09_bloom.py (kept as a cross-check of the encoder; not counted as proved)"]
 
 
 def units(tier):
-    return sqlunits.units_for("C09") + handlers.units_for("C09")
+    return sqlunits.units_for("C09") + handlers.units_for("C09") + bloom.units_for("C09")
 
 
 def extras(tier, seed):
